@@ -28,15 +28,16 @@ AllowedKeys == {r.key : r \in ToSet(ndJsonDeserialize(IOEnv.VERIF_ALLOWED_FILE))
 VARIABLES l,
           dseq,    \* sequence number of the drained event (0: Drain has not returned)
           early,   \* sessions that were taken but had said nothing yet when Drain returned
+          held,    \* sessions that were taken but had said nothing yet when Drain was called
           wired    \* the hub listens to the store's events (as in the full assembly)
-tvars == <<phase, ss, plan, drain, store, dirty, scanner, hub, l, dseq, early, wired>>
+tvars == <<phase, ss, plan, drain, store, dirty, scanner, hub, l, dseq, early, held, wired>>
 
 Ev == TraceLog[l]
 Is(a) == l <= Len(TraceLog) /\ Ev.a = a /\ l' = l + 1
 Mark == TLCSet(1, l + 1)
 Dev(key) == /\ key \in AllowedKeys
             /\ PrintT(<<"DEVIATION", key, l>>)
-Keep == UNCHANGED <<dseq, early, wired>>
+Keep == UNCHANGED <<dseq, early, held, wired>>
 
 (* projection of the real store: per non-empty mailbox the subjects in order *)
 Obs(m) == LET I == {i \in DOMAIN Ev.snap : Ev.snap[i].mb = m}
@@ -61,12 +62,12 @@ LateOK(s, answered) ==
     THEN Proto = "smtp" /\ s \in early /\ Dev("C19.smtp.session-registers-after-spawn")
     ELSE TRUE
 
-TraceInit == l = 1 /\ Init /\ dseq = 0 /\ early = {} /\ wired = FALSE
+TraceInit == l = 1 /\ Init /\ dseq = 0 /\ early = {} /\ held = {} /\ wired = FALSE
 
 TrReset == /\ Is("reset") /\ Ev.proto = Proto
            /\ phase' = "running" /\ ss' = [s \in Sess |-> "none"] /\ plan' = [s \in Sess |-> NoPlan]
            /\ drain' = "idle" /\ dirty' = {} /\ scanner' = "running" /\ hub' = "running"
-           /\ dseq' = 0 /\ early' = {} /\ wired' = (Ev.hub = "wired")
+           /\ dseq' = 0 /\ early' = {} /\ held' = {} /\ wired' = (Ev.hub = "wired")
            /\ store' = [m \in Mailbox |-> Obs(m)]
            /\ SnapOK(store', {})
            /\ Mark
@@ -110,13 +111,15 @@ TrCancel == /\ Is("cancel")
 TrNewConn == /\ Is("newconn") /\ Refuse
              /\ Ev.r = "refused" \/ (Ev.r = "connected" /\ ~Ev.ours)
              /\ Keep /\ Mark
-TrDrain == /\ Is("drain") /\ DrainCall /\ Keep /\ Mark
+TrDrain == /\ Is("drain") /\ DrainCall
+           /\ held' = {s \in Sess : ss[s] = "accepted"}
+           /\ UNCHANGED <<dseq, early, wired>> /\ Mark
 (* Drain has returned; whether it was entitled to is decided by what clients observe afterwards *)
 TrDrained == /\ Is("drained")
              /\ drain = "called" /\ drain' = "returned"
              /\ dseq' = Ev.e
              /\ early' = {s \in Sess : ss[s] = "accepted"}
-             /\ UNCHANGED <<phase, ss, plan, store, dirty, scanner, hub, wired>>
+             /\ UNCHANGED <<phase, ss, plan, store, dirty, scanner, hub, held, wired>>
              /\ Mark
 (* end of the behaviour: all clients are gone; a called Drain has returned *)
 TrEnd == /\ Is("end")
@@ -124,13 +127,19 @@ TrEnd == /\ Is("end")
          /\ SnapOK(store, dirty)
          /\ UNCHANGED <<phase, ss, plan, drain, store, dirty, scanner, hub>>
          /\ Keep /\ Mark
-(* the server process died.  Known finding: the hub closes its operation queue when the context   *)
-(* is cancelled, so the after-event of a message stored (or removed) by a still open session      *)
-(* afterwards makes the event dispatcher send on a closed channel                                  *)
+(* the server process died.  Known findings: (1) the hub closes its operation queue when the      *)
+(* context is cancelled, so the after-event of a message stored (or removed) by a still open       *)
+(* session afterwards makes the event dispatcher send on a closed channel; (2) the SMTP session    *)
+(* that registers itself (wg.Add inside its goroutine) does so while Drain's wg.Wait is returning  *)
+WaitGroupPanics == {"panic: sync: WaitGroup is reused before previous Wait has returned",
+                    "panic: sync: WaitGroup misuse: Add called concurrently with Wait"}
 TrDied == /\ Is("died")
-          /\ wired /\ phase = "stopping" /\ hub = "stopped"
-          /\ Ev.sig = "panic: send on closed channel"
-          /\ Dev("C19.hub.dispatch-after-stop-panics")
+          /\ \/ /\ wired /\ phase = "stopping" /\ hub = "stopped"
+                /\ Ev.sig = "panic: send on closed channel"
+                /\ Dev("C19.hub.dispatch-after-stop-panics")
+             \/ /\ Proto = "smtp" /\ drain # "idle" /\ held # {}
+                /\ Ev.sig \in WaitGroupPanics
+                /\ Dev("C19.smtp.session-registers-after-spawn")
           /\ UNCHANGED <<phase, ss, plan, drain, store, dirty, scanner, hub>>
           /\ Keep /\ Mark
 
